@@ -424,25 +424,34 @@ def part_capture(ctx, out):
                                        shape='capture-py', case=dict(verbosity=v, writes=ws)))
     # cmd-actions: byte-level capture is library behaviour (pipes, threads, decoding): exercised only
     n_cmd = 0
-    for size in ([0, 1, 4096, 65536, 300000] if ctx.quick else [0, 1, 100, 4095, 4096, 4097, 65535, 65536, 65537, 300000, 2000000]):
+    unit = {'ascii': b'ab', 'badutf8': b'\xff\xfe', 'utf8-3byte': '\u20ac'.encode('utf-8'), 'utf8-mixed': 'a\u00e9\u20ac\U0001F600'.encode('utf-8')}
+    for size in ([0, 1, 4096, 8191, 8192, 8193, 24576, 65536, 300000] if ctx.quick else [0, 1, 100, 4095, 4096, 4097, 8190, 8191, 8192, 8193, 16383, 16384, 16385, 24576, 65535, 65536, 65537, 300000, 2000000]):
         for v in (0, 1, 2):
-            for mode in ('ascii', 'badutf8'):
-                payload = (b'\xff\xfe' if mode == 'badutf8' else b'ab') * (size // 2) + b'\n'
-                script = ('import sys,os; p=%r; sys.stdout.buffer.write(p); sys.stdout.flush(); '
-                          'sys.stderr.buffer.write(b"E"+p); sys.stderr.flush()') % payload if size < 5000 else (
-                          'import sys; p=(%r*%d)+b"\\n"; sys.stdout.buffer.write(p); sys.stdout.flush(); sys.stderr.buffer.write(b"E"+p)' % ((b'\xff\xfe' if mode == 'badutf8' else b'ab'), size // 2))
-                task = Task('c', [[sys.executable, '-S', '-c', script]], verbosity=v)
-                with Streams() as st:
-                    ret = task.execute(Stream(None))
-                act = task.actions[0]
-                want = payload.decode('utf-8', 'replace')
-                n_cmd += 1
-                out.count('capture:cmd:%s' % mode)
-                ok = (ret is None and act.out == want and act.err == 'E' + want and act.result == want + 'E' + want
-                      and st.out.getvalue() == (want if v == 2 else '') and st.err.getvalue() == ('E' + want if v >= 1 else ''))
-                if not ok or not st.restored():
-                    out.violations.append(dict(what='cmd-action output of %d bytes (%s) not captured intact at verbosity %d' % (size, mode, v),
-                                               shape='capture-cmd', case=dict(size=size, verbosity=v, mode=mode)))
+            for mode in ('ascii', 'badutf8', 'utf8-3byte', 'utf8-mixed'):
+                for nl in ((False,) if ctx.quick and mode in ('ascii', 'badutf8') else (False, True)):
+                    u = unit[mode]
+                    reps = size // len(u)
+                    # one long line (nl=False) or many lines; an offset byte shifts multi-byte characters across buffer boundaries
+                    off = b'x' * (size % 3)
+                    body = off + u * reps
+                    if nl and reps > 10:
+                        body = off + (u * 7 + b'\n') * (reps // 7)
+                    payload = body + b'\n'
+                    script = ('import sys; u=%r; p=%r+u*%d if not %r else %r+(u*7+b"\\n")*%d; p=p+b"\\n"; '
+                              'sys.stdout.buffer.write(p); sys.stdout.flush(); sys.stderr.buffer.write(b"E"+p); sys.stderr.flush()'
+                              % (u, off, reps, bool(nl and reps > 10), off, reps // 7))
+                    task = Task('c', [[sys.executable, '-S', '-c', script]], verbosity=v)
+                    with Streams() as st:
+                        ret = task.execute(Stream(None))
+                    act = task.actions[0]
+                    want = payload.decode('utf-8', 'replace')
+                    n_cmd += 1
+                    out.count('capture:cmd:%s' % mode)
+                    ok = (ret is None and act.out == want and act.err == 'E' + want and act.result == want + 'E' + want
+                          and st.out.getvalue() == (want if v == 2 else '') and st.err.getvalue() == ('E' + want if v >= 1 else ''))
+                    if not ok or not st.restored():
+                        out.violations.append(dict(what='cmd-action output of %d bytes (%s, %s) not captured intact at verbosity %d' % (len(payload), mode, 'many lines' if nl else 'one line', v),
+                                                   shape='capture-cmd', case=dict(size=size, verbosity=v, mode=mode, lines=bool(nl))))
     out.extra['cmd_capture_runs_exercised_only'] = n_cmd
     return cases
 
